@@ -469,7 +469,7 @@ Proof.
     assert (Ia : Inv_counts a) by (eapply move_counts; eauto).
     repeat dmatch H; try (inv H; exact Ia).
     unfold drop_off_trip in H. repeat dmatch H. inv H. exact Ia.
-  - eapply charge_counts; eauto.
+  - unfold charge_unless_full in H. repeat dmatch H; try (inv H; exact I); eapply charge_counts; eauto.
   - rewrite Fv in H. repeat dmatch H.
     lazymatch goal with X : modify_vehicle _ _ ?w = Ok _ |- _ => apply (modv_counts0 s v w s' I K); [| |exact X] end.
     + rewrite (proj2 (mech_idle_state _ _ _)), Hid. exact Fv.
